@@ -12,6 +12,10 @@ import json, os, re, subprocess, time, hashlib
 import genpipe
 
 VERIF = os.path.dirname(os.path.abspath(__file__))
+# evidence and replays of an evaluation run against a scratch tree (VERIF_REPO set) go to a scratch place
+_ALT = os.environ.get("VERIF_REPO", "/repo") != "/repo"
+EVIDENCE = os.path.join(os.environ.get("VERIF_ALT_OUT", "/tmp/verif_alt"), "evidence") if _ALT else os.path.join(VERIF, "evidence")
+REPLAYS = os.path.join(os.environ.get("VERIF_ALT_OUT", "/tmp/verif_alt"), "replays") if _ALT else os.path.join(VERIF, "replays")
 
 NAMES = ["Alpha", "beta", "gamma_delta", "EPSILON"]
 PREFIXES = [None, "a.b", "a.{user}", "{user}.a", "a.{user}.b.{kind}", "{user}"]
@@ -453,7 +457,7 @@ def run(prop, spec, tier, scratch, known, vcheck):
                     violations.append(v)
     # classify
     exit_code, new = 0, 0
-    os.makedirs(os.path.join(VERIF, "replays"), exist_ok=True)
+    os.makedirs(REPLAYS, exist_ok=True)
     seen = set()
     for v in violations:
         fp = v["fingerprint"]
@@ -472,7 +476,7 @@ def run(prop, spec, tier, scratch, known, vcheck):
             if not ok:
                 inconclusive.append("ENGINE-MISMATCH: Go counterexample %s did not reproduce natively: %s" % (fp, how))
                 continue
-        path = os.path.join(VERIF, "replays", "%s-%s.json" % (prop, hashlib.sha1(fp.encode()).hexdigest()[:10]))
+        path = os.path.join(REPLAYS, "%s-%s.json" % (prop, hashlib.sha1(fp.encode()).hexdigest()[:10]))
         v["confirmed_by"] = how
         json.dump(v, open(path, "w"), indent=1)
         lines.append("VIOLATION property=%s replay=%s" % (prop, path))
